@@ -116,7 +116,8 @@ class StlAstParserVisitor(LtlAstParserVisitor, StlParserVisitor):
 
         val = self.const_val_dict[const_name]
 
-        out = Fraction(Decimal(val))
+        # (a value declared through the API may be a float: read its decimal spelling, not its binary expansion)
+        out = Fraction(Decimal(str(val)))
 
         if ctx.unit() is None:
             unit = ''
